@@ -22,6 +22,12 @@ class SigT:
 class _Int(SigT):
     name = "Int"
 
+    def __init__(self, pool=None):
+        self.pool = pool
+
+    def of(self, pool):
+        return _Int(pool)
+
 
 class _Bool(SigT):
     name = "Bool"
@@ -29,6 +35,14 @@ class _Bool(SigT):
 
 class _Str(SigT):
     name = "Str"
+
+    def __init__(self, alphabet=None, pool=None, maxlen=3):
+        self.alphabet = alphabet
+        self.pool = pool
+        self.maxlen = maxlen
+
+    def of(self, alphabet=None, pool=None, maxlen=3):
+        return _Str(alphabet, pool, maxlen)
 
 
 class _IntList(SigT):
@@ -95,10 +109,6 @@ class Inv:
         self.decreases = decreases
         self.types = types or {}
         self.modifies = modifies
-        self.result_alias = result_alias
-        self.call_native = call_native
-        self.gen = gen
-        self.bounded = bounded
         self.props = props
 
 
@@ -127,6 +137,7 @@ class Contract:
         call_native=None,
         gen=None,
         bounded=None,
+        uses=(),
     ):
         self.target = target
         self.sig = dict(sig)
@@ -152,6 +163,46 @@ class Contract:
         self.call_native = call_native
         self.gen = gen
         self.bounded = bounded
+        self.uses = list(uses)  # Axiom / Lemma objects whose formulas are assumed in every VC
+        self.result_alias = result_alias
+        self.call_native = call_native
+        self.gen = gen
+        self.bounded = bounded
+        self.uses = list(uses)  # Axiom / Lemma objects whose formulas are assumed in every VC
+
+
+LEMMAS: dict[str, "Lemma"] = {}
+AXIOMS: dict[str, "Axiom"] = {}
+
+
+class Axiom:
+    """A definitional axiom of a spec function (primitive recursion: conservative), or an
+    assumed fact about a dependency.  ``formula`` is a closed z3 term."""
+
+    def __init__(self, name, formula, kind="definition", note=""):
+        self.name = name
+        self.formula = formula
+        self.kind = kind
+        self.note = note
+        AXIOMS[name] = self
+
+
+class Lemma:
+    """A spec-level lemma: ``fn()`` returns (assumptions, goal) as z3 terms.  Used for
+    inductions written out by hand (base / step) and for composition lemmas over contracts."""
+
+    def __init__(self, name, props, fn, note="", statement=None, uses=()):
+        self.name = name
+        self.props = set(props)
+        self.fn = fn  # () -> list of (label, assumptions, goal)
+        self.note = note
+        self.statement = statement  # closed z3 formula usable by contracts once proved
+        self.uses = list(uses)
+        LEMMAS[name] = self
+
+    @property
+    def formula(self):
+        return self.statement
 
 
 def contract(target, **kw):
@@ -350,6 +401,14 @@ class _S:
         import re as _re
 
         return _re.fullmatch(re_py, s, _re.S) is not None
+
+    def all_chars(self, s, cls_z3, cls_py, nonempty=False):
+        """every character of s satisfies the class (given on code points, z3 and python)"""
+        if is_sym(s):
+            from .builtins_model import all_chars as _ac
+            f = _ac(L.lift(s), cls_z3)
+            return z3.And(z3.Length(s) > 0, f) if nonempty else f
+        return (len(s) > 0 or not nonempty) and all(cls_py(ord(ch)) for ch in s)
 
     def substr(self, s, lo, ln):
         if is_sym(s, lo, ln):
